@@ -638,6 +638,14 @@ def _lineage_of_stored_rows(ctx, chk, f, flow, kind, tabs, ids_n, offs_n, map_n,
     def role(name_node):
         b = binding(name_node)
         if b is None:
+            # sid = IDS[i] with i counting the positions of IDS (or of the offsets)
+            dv = flow.def_value(name_node)
+            if isinstance(dv, ast.Subscript) and isinstance(dv.value, ast.Name) and isinstance(dv.slice, ast.Name):
+                r_, lp_ = role(dv.slice)
+                if r_ == "pos" and dv.value.id == ids_n:
+                    return "sid", lp_
+                if r_ == "pos" and dv.value.id == offs_n:
+                    return "offset", lp_
             return None, None
         c = b.container
         if isinstance(c, ast.Name) and c.id == ids_n:
@@ -703,10 +711,15 @@ def _lineage_of_stored_rows(ctx, chk, f, flow, kind, tabs, ids_n, offs_n, map_n,
         """v with LIST[sid] replaced by what the row loop appended to LIST; None if some LIST[sid] is not an aligned list."""
         ok = [True]
         ex = flow.expand(v, keep={sid_name, ids_n, offs_n, map_n} | set(appended))
+        if sid_name.startswith("Subscript("):
+            # the dump of an expanded copy has no positions either: compare structurally
+            pass
 
         class T(ast.NodeTransformer):
             def visit_Subscript(self, node):
-                if isinstance(node.value, ast.Name) and node.value.id in appended and isinstance(node.slice, ast.Name) and node.slice.id == sid_name:
+                is_sid = (isinstance(node.slice, ast.Name) and node.slice.id == sid_name) or \
+                    (sid_name.startswith("Subscript(") and ast.dump(node.slice) == sid_name)
+                if isinstance(node.value, ast.Name) and node.value.id in appended and is_sid:
                     if node.value.id not in aligned:
                         ok[0] = False
                         return node
@@ -750,6 +763,10 @@ def _lineage_of_stored_rows(ctx, chk, f, flow, kind, tabs, ids_n, offs_n, map_n,
                     if isinstance(n, ast.Name) and isinstance(n.ctx, ast.Load) and id(n) not in seen:
                         seen.add(id(n))
                         r, lp = role(n)
+                        if r == "pos" and isinstance(getattr(n, "parent", None), ast.Subscript) and n.parent.slice is n \
+                                and isinstance(n.parent.value, ast.Name) and n.parent.value.id == ids_n:
+                            # IDS[position]: the series id, written inline
+                            out.setdefault("sid", []).append((n.parent, lp))
                         if r:
                             out.setdefault(r, []).append((n, lp))
                         else:
@@ -772,7 +789,8 @@ def _lineage_of_stored_rows(ctx, chk, f, flow, kind, tabs, ids_n, offs_n, map_n,
                               % (s.stmt.table, ast.unparse(v) if v is not None else "?"))
         else:
             sid_node, sid_loop = sids[0]
-            r = resolve(v, sid_node.id)
+            sid_text = sid_node.id if isinstance(sid_node, ast.Name) else ast.unparse(sid_node)
+            r = resolve(v, sid_node.id if isinstance(sid_node, ast.Name) else ast.dump(flow.expand(sid_node, keep={ids_n})))
             if r is None:
                 chk.indeterminate("C13.O3", where, "%s.start_epoch = %s uses a list that is not appended exactly once per row" % (s.stmt.table, ast.unparse(v)))
             else:
@@ -789,7 +807,7 @@ def _lineage_of_stored_rows(ctx, chk, f, flow, kind, tabs, ids_n, offs_n, map_n,
                 if not good and not mentions_row:
                     chk.indeterminate("C13.O3", where, "%s.start_epoch resolves to %s, which is not expressed in the row loop's variables" % (s.stmt.table, ast.unparse(core)[:80]))
                 else:
-                    chk.ob("C13.O3", good, where, "%s.start_epoch = %s = %s for the row of series id %s" % (s.stmt.table, ast.unparse(v)[:60], ast.unparse(core)[:80], sid_node.id),
+                    chk.ob("C13.O3", good, where, "%s.start_epoch = %s = %s for the row of series id %s" % (s.stmt.table, ast.unparse(v)[:60], ast.unparse(core)[:80], sid_text),
                            "start of the interval whose series carries that id", key="%s|%s|start_epoch" % (f.qualname, s.stmt.table),
                            why="an offset or crossing stored under another interval's start belongs to the wrong interval")
         sid_loop = sids[0][1] if sids else None
@@ -827,7 +845,7 @@ def _lineage_of_stored_rows(ctx, chk, f, flow, kind, tabs, ids_n, offs_n, map_n,
                 ok_z = list(rz) == ["level"]
                 if ok_z:
                     lvl_loop = rz["level"][0][1]
-                    cont = binding(sids[0][0]).container
+                    cont = binding(sids[0][0]).container if isinstance(sids[0][0], ast.Name) else None
                     if isinstance(cont, ast.Name):
                         bcont = binding(cont)
                         ok_z = bcont is not None and bcont.loop is lvl_loop
